@@ -1887,21 +1887,41 @@ func ruleReadyContinuationLive(c *Ctx) {
 			if !ok {
 				continue
 			}
-			for _, g := range p.withNewHelpers(mc.Fn.(*ssa.Function)) {
-				for _, c2 := range callsIn(g) {
-					f := calleeFunc(c2.Common())
-					if f == nil || (f.Name() != "Send" && f.Name() != "GetRPCResources") {
-						continue
-					}
-					n++
-					c.inst(1)
-					ok := p.guardedByOpt(c2, alive, false) != nil
-					if !ok && g != mc.Fn.(*ssa.Function) && g.Parent() == nil {
-						ok = p.guardedUp(c2, alive, 0)
-					}
-					c.check(ok, fnName(g), "a continuation that waited for references sends only for a live subscription", p.InstrPos(c2), "under state != disposed, tested in the continuation",
-						"after the wait for the referenced resources the event is sent (resources handed out) without testing that the subscription is still alive: a resource the client has unsubscribed, or a connection that is gone, is sent an event and its references are counted as sent")
+			// what counts as sending, seen from the continuation: Send / GetRPCResources themselves, or a helper
+			// that did not exist on the reference tree and (transitively) does one of them
+			var sends func(f *ssa.Function, d int) bool
+			sends = func(f *ssa.Function, d int) bool {
+				if d > 4 || f == nil {
+					return false
 				}
+				for _, c3 := range callsIn(f) {
+					cf := calleeFunc(c3.Common())
+					if cf != nil && (cf.Name() == "Send" || cf.Name() == "GetRPCResources") {
+						return true
+					}
+					if sf := c3.Common().StaticCallee(); sf != nil && p.isRepoFn(sf) && !p.onReferenceTree(sf) && sends(sf, d+1) {
+						return true
+					}
+				}
+				return false
+			}
+			g := mc.Fn.(*ssa.Function)
+			for _, c2 := range callsIn(g) {
+				f := calleeFunc(c2.Common())
+				isSend := f != nil && (f.Name() == "Send" || f.Name() == "GetRPCResources")
+				if !isSend {
+					if sf := c2.Common().StaticCallee(); sf != nil && p.isRepoFn(sf) && !p.onReferenceTree(sf) && sends(sf, 0) {
+						isSend = true
+					}
+				}
+				if !isSend {
+					continue
+				}
+				n++
+				c.inst(1)
+				ok := p.guardedByOpt(c2, alive, false) != nil
+				c.check(ok, fnName(g), "a continuation that waited for references sends only for a live subscription", p.InstrPos(c2), "under state != disposed, tested in the continuation",
+					"after the wait for the referenced resources the event is sent (resources handed out) without testing that the subscription is still alive: a resource the client has unsubscribed, or a connection that is gone, is sent an event and its references are counted as sent")
 			}
 		}
 	}
